@@ -18,6 +18,11 @@
   2147483904; the Rust crate does the same).  Hence
   * the byte-level theorems take the law *at the input concerned* (`EncDecAt b`, an explicit
     hypothesis, satisfiable: see the example after `decode_unique_bytes`);
+  * the law is *proved* for the model codec at every input whose dCBOR tree is `Cbor.Plain`
+    (no float node, no `uint` above 2^31, no `nint` from 2^63: `Cbor.encDec_of_plain` in
+    Lemmas/CodecLaws.lean), which gives the hypothesis-free `decode_exact_plain`,
+    `reject_noncanonical_cbor_plain`: the float alias is the *only* non-canonical input the
+    model decoder accepts;
   * the unrestricted byte-level statement `decode_exact_full_statement` is refuted on a
     concrete witness (`decode_exact_full_statement_false`): the envelope decoder accepts
     `d8c8 d8c9 fa4f000001` and re-encodes it as `d8c8 d8c9 1a80000100`.  This is a genuine
@@ -120,6 +125,25 @@ theorem decode_unique_bytes (b₁ b₂ : Bytes) (L₁ : EncDecAt b₁) (L₂ : E
     (h₁ : decode h b₁ = .ok e) (h₂ : decode h b₂ = .ok e) (l₁ : NoLegacyLeaf b₁)
     (l₂ : NoLegacyLeaf b₂) : b₁ = b₂ := by
   rw [← decode_exact h b₁ L₁ e h₁ l₁, ← decode_exact h b₂ L₂ e h₂ l₂]
+
+/-- C06 without any codec hypothesis, for the model codec: if the decoded envelope's tree
+has no float and no integer in the ranges affected by the `dcbor` float defect, the
+re-encoding is exactly the input byte string -/
+theorem decode_exact_plain (b : Bytes) (e : Env) (hd : decode h b = .ok e) (hl : NoLegacyLeaf b)
+    (hp : (taggedCborOf e).Plain) : encode e = b := by
+  obtain ⟨c, hc, ht, _⟩ := decode_canonical_tree h b e hd
+  have hn : legacyNorm c = c := legacyNorm_of_no_legacy c (hl c hc)
+  have htc : taggedCborOf e = c := by rw [(envOfTaggedCbor_canonical h c e ht).1, hn]
+  rw [htc] at hp
+  simp only [encode, htc]
+  exact (Cbor.encDec_of_plain hc hp).1
+
+/- satisfiable: the sample -/
+example : (taggedCborOf CodecEx.sample).Plain := by
+  simp [taggedCborOf, cborOf, cborOfList, CodecEx.sample, CodecEx.sWrapped, CodecEx.sLeaf,
+    CodecEx.sAssert, CodecEx.sKV, CodecEx.sElided, CodecEx.sEnc, CodecEx.sComp, CodecEx.sEncMsg,
+    encMsgCbor, compMsgCbor, digestCbor, Cbor.Plain, Cbor.PlainList, Cbor.PlainPairs]
+  split <;> simp [Cbor.Plain, Cbor.PlainList]
 
 /-- the unrestricted form of `decode_exact` (no codec-law hypothesis) -/
 def decode_exact_full_statement : Prop :=
@@ -450,6 +474,18 @@ theorem reject_noncanonical_cbor (b : Bytes) (L : EncDecAt b)
   cases hd : Cbor.dec b with
   | ok c => exact absurd (L c hd).1 (hb c (L c hd).2)
   | error x => exact ⟨_, reject_cbor_error h b x hd⟩
+
+/-- non-deterministic CBOR, part 3 (model codec, no hypothesis): a byte string that is not
+the encoding of a valid dCBOR tree is refused, unless the dCBOR layer reads a float or an
+integer of the affected ranges out of it (the `dcbor` float defect) -/
+theorem reject_noncanonical_cbor_plain (b : Bytes) (hb : ∀ c : Cbor, c.Valid → c.enc ≠ b) :
+    (∃ msg, decode h b = .err msg) ∨ (∃ c, Cbor.dec b = .ok c ∧ ¬ c.Plain) := by
+  cases hd : Cbor.dec b with
+  | error x => exact Or.inl ⟨_, reject_cbor_error h b x hd⟩
+  | ok c =>
+    refine Or.inr ⟨c, rfl, fun hp => ?_⟩
+    obtain ⟨h1, h2⟩ := Cbor.encDec_of_plain hd hp
+    exact hb c h2 h1
 
 /- instances on the model codec: a non-shortest head, an indefinite-length array, a map
 with keys out of order, a duplicate key, a float that should have been an integer -/
